@@ -856,9 +856,59 @@ class Tie:
             self.ctx.note(f'{check.__name__}{args!r}: evaluate {seen_wb!r} vs library call {seen_lib!r}')
 
 
+def fractional_arguments(ctx):
+    """year, month, day and the number of months given as numbers that are not whole: never an exception; the months of
+    EDATE / EOMONTH are truncated (documented), the start day counts with its whole part; for DATE the whole part of
+    each argument counts - towards zero or downwards, which the statement does not fix for negative values"""
+    import math
+    fr = (0.5, 0.25, 0.9, 0.999999)
+    k = 0
+    for y, m, d in ((2000, 2, 1), (1900, 1, 1), (2020, 12, 31), (1999, -3, 15), (2024, 14, -2), (9999, 12, 31), (1900, 3, 0)):
+        for dy, dm, dd in ((0, .5, 0), (.7, 0, 0), (0, 0, .9), (.5, .5, .5), (0, -.5, 0), (0, 0, -.25), (.25, .999999, .5)):
+            k += 1
+            if not ctx.mine(k):
+                continue
+            args = (y + dy, m + dm, d + dd)
+            o = lib.call('date', *args)
+            ctx.count('fractional:date')
+            ctx.case(('fractional-date', args))
+            case = {'part': 'fractional'}
+            if o[0] == 'x':
+                ctx.violation('DATE/fractional-argument-raises', f'DATE{args} {show(o)}; never an exception', case)
+                continue
+            wants = set()
+            for f in (math.floor, math.trunc):
+                w = lib.call('date', f(args[0]), f(args[1]), f(args[2]))
+                wants.add(w[1] if w[0] == 'v' else 'x')
+            if o[1] not in wants:
+                ctx.violation('DATE/fractional-argument-not-its-whole-part',
+                              f'DATE{args} = {show(o)}; with the whole parts of the arguments it is one of {sorted(map(str, wants))}', case)
+    for f in ('edate', 'eomonth'):
+        for n in (100, 59, 61, 36525, 45000, 2958465, 31):
+            for mk in (1.5, -1.5, 0.9, -0.9, 12.25, -13.75, 2.999999):
+                for dn in (0, 0.5):
+                    k += 1
+                    if not ctx.mine(k):
+                        continue
+                    o = lib.call(f, n + dn, mk)
+                    ctx.count('fractional:shift')
+                    ctx.case(('fractional-shift', f, n + dn, mk))
+                    case = {'part': 'fractional'}
+                    if o[0] == 'x':
+                        ctx.violation(f'{f.upper()}/fractional-argument-raises',
+                                      f'{f.upper()}({n + dn}, {mk}) {show(o)}; never an exception', case)
+                        continue
+                    w = lib.call(f, n, math.trunc(mk))
+                    if w[0] == 'v' and o[1] != w[1]:
+                        ctx.violation(f'{f.upper()}/fractional-months-not-truncated',
+                                      f'{f.upper()}({n + dn}, {mk}) = {show(o)}; {f.upper()}({n}, {math.trunc(mk)}) = {show(w)}',
+                                      case)
+
+
 def run(ctx):
     cal.selfcheck()
     tie = Tie(ctx)
+    fractional_arguments(ctx)
     sweep_date(ctx, tie)
     sweep_shift(ctx, tie)
     sweep_hms(ctx, tie)
@@ -883,6 +933,10 @@ def replay(ctx, case):
     part = case['part']
     if part == 'text-time':
         text_times(ctx)
+        return
+    if part == 'fractional':
+        ctx.nshards, ctx.shard = 1, 0
+        fractional_arguments(ctx)
         return
     if part == 'day':
         check_day(ctx, ev, case['n'])
